@@ -348,7 +348,10 @@ def run_schedules(chk, binary, cases, tag):
         ops, per, problem = derive_ops(i["log"])
         rows.append(dict(case=c, impl=i, ops=ops, per=per, problem=problem))
         exprs.append(coq_case(c, ops))
-    model = vlib.coq_eval(tag, IMPORTS, exprs, PRELUDE)
+    # batches keep the peak memory of the parallel coqc runs bounded on a loaded machine
+    model = []
+    for k in range(0, len(exprs), 6000):
+        model.extend(vlib.coq_eval(tag, IMPORTS, exprs[k:k + 6000], PRELUDE))
     for row, m in zip(rows, model):
         row["model"] = m
         row["diff"] = None
@@ -390,7 +393,7 @@ def shrink(binary, case, pred, budget=60):
 
 def schedule_cases(r, thorough, prop_corpus):
     cases = directed_cases() + prop_corpus
-    for _ in range(60000 if thorough else 450):
+    for _ in range(30000 if thorough else 450):
         cases.append(gen_f7_like(r) if r.random() < 0.15 else gen_case(r))
     if thorough:
         cases += exhaustive_cases(4)
